@@ -29,6 +29,14 @@ CLAIMED = {
         note="reads hidden from the AST: check_options' getattr loop over IGNORED_PROPKA_OPTIONS; run_propka hands the namespace to PROPKA (covered only by runs with propka); translator gen/mainflow.py trusted",
         ref="DESIGN.md §4 C09",
     ),
+    "C11": dict(
+        text="Lean frame theorem (no axioms): if every run leaves the cells outside a write set W unchanged and its output depends only on its input and on cells outside W, then for EVERY history of runs (successful or failed) the n-th output is that of the same input run alone from the initial state. "
+        "The hypothesis is discharged for the current tree by theorems kernel-checked over an inventory REGENERATED from the AST of every module on each run: the only statement inside a function that mutates a long-lived mutable object is the import-time parser registration; "
+        "mutable default arguments are never mutated; sets are iterated only in ligand ring/torsion perception; id()/hash() are not used. "
+        "Dynamic validation: structural fingerprint of every pdb2pqr module global / class attribute / function default before and after runs (changes must be in the generated write set); A-B-A and A-fail-A histories in one process; fresh processes under PYTHONHASHSEED 0/1/2/random; PQR bytes compared.",
+        note="partial by nature: third-party module state (propka, numpy, logging) and aliasing created at run time are invisible to the AST; only the histories and seeds actually run are observed",
+        ref="DESIGN.md §4 C11",
+    ),
     "C12": dict(
         text="Lean theorems kernel-checked over the regenerated call skeleton of main.py and the inventory of every write-open in the package: the output PQR path is opened for writing in exactly one place (print_pqr); print_pqr is called once, "
         "after every argument check, file lookup, parse, set-up and compute stage, and only the optional PDB/APBS writers follow it; non_trivial never sees the output path; the charge guard precedes naming and line generation; checks come first. "
